@@ -169,11 +169,11 @@ theorem head_node : ∀ (t : Node), fragN c ap t = true → ∀ (q : Nat) (ws : 
     simp only [fragN, Bool.or_eq_true, beq_iff_eq] at h
     simp only [exprToks]; exact Head.cons (by rcases h with h | h <;> simp [tk, h, startTy]) rfl _
   | .post t p, h, q, ws => by
-    simp only [fragN, Bool.and_eq_true, beq_iff_eq] at h
+    simp only [fragN, Bool.and_eq_true, Bool.or_eq_true, beq_iff_eq] at h
     simp only [exprToks]
     split
     · exact head_lparen _ _
-    · exact Head.cons (by simp [tk, h.2, startTy]) rfl _
+    · exact Head.cons (by rcases h.2 with h' | h' <;> simp [tk, h', startTy]) rfl _
   | .builtin t ps, h, q, ws => by
     simp only [fragN, Bool.and_eq_true] at h
     simp only [exprToks]; exact Head.cons (by simp [tk, startTy, h.1]) rfl _
@@ -354,7 +354,7 @@ theorem postfix_some : ∀ t : TokType, t = .INCR ∨ t = .DECR → lookup postf
   intro t h; rcases h with rfl | rfl <;> decide
 
 /-- `p++` without parentheses, at any level: tokens `p` at `i`, the operator at `i + 1` -/
-theorem post_body {t p : Tk} (ht : t.type = .INCR ∨ t.type = .DECR) (hp : p.type = .IDENT) (w : Bool) (P i : Nat) (res : ONode × PState)
+theorem post_body {t p : Tk} (ht : t.type = .INCR ∨ t.type = .DECR) (hp : p.type = .IDENT ∨ p.type = .DOTDOT) (w : Bool) (P i : Nat) (res : ONode × PState)
     (hseg : Seg s i [tk p w, tk t false]) (hfollow : (s.get (i + 2)).type ≠ .LAMBDA) :
     Ev (fun f => parseExpressionLoop s f P (some (.post t p)) (stAt s (i + 1)) = .ok res) →
     Ev (fun f => parseExpression s f P (stAt s i) = .ok res) := by
@@ -365,12 +365,13 @@ theorem post_body {t p : Tk} (ht : t.type = .INCR ∨ t.type = .DECR) (hp : p.ty
   refine Ev.step 1 1 (fun F h1F hF f hf => ?_)
   obtain ⟨g, rfl⟩ : ∃ g, f = g + 1 := ⟨f - 1, by omega⟩
   rw [pE_step (s := s) (st := stAt s i) (fn := .parseIdentifier) (l := some (.post t p)) (st1 := stAt s (i + 1))
-    (by simp only [stAt_cur, hty, hp]; decide) (by simp only [stAt_cur, hty, hp]; decide) ?_ (by simpa using hfollow)]
+    (by simp only [stAt_cur, hty]; rcases hp with h | h <;> rw [h] <;> decide)
+    (by simp only [stAt_cur, hty]; rcases hp with h | h <;> rw [h] <;> decide) ?_ (by simpa using hfollow)]
   · exact hF _ hf
   · rw [pd_ident, parseIdentifier_post (by simp only [stAt_peek, hty2]; exact (postfix_some _ ht).1), advance_stAt, stAt_peek, stAt_cur,
       seg_tk hseg.1, seg_tk hseg.2]
 
-theorem gpa_post (t p : Tk) (ht : t.type = .INCR ∨ t.type = .DECR) (hp : p.type = .IDENT) : GPA s (.post t p) := by
+theorem gpa_post (t p : Tk) (ht : t.type = .INCR ∨ t.type = .DECR) (hp : p.type = .IDENT ∨ p.type = .DOTDOT) : GPA s (.post t p) := by
   intro c ap ws q P i j res hseg hj hstop
   simp only [exprToks] at hseg hj
   by_cases hn : (ap || decide (precOf t.type < q)) = true
